@@ -153,7 +153,7 @@ fn gen_op(rng: &mut Rng, blocks: bool, nbufs: usize, has_timeout: bool, open: &[
                 if free.is_empty() { continue; }
                 Op::BlockScan { base: *rng.pick(&free), buf, timeout_at: tmo(rng) }
             }
-            // finish() without a scanned block panics (context.rs search_for_patterns, `_ => panic!()`): reported separately, not generated
+            // finish() without a scanned block used to panic (repaired by fix a275e4a4); histories keep finishing only open sequences
             83..=89 => { if open.is_empty() { continue; } Op::BlockFinish { timeout_at: tmo(rng) } }
             90..=95 => Op::OtherScan { rs: rng.below(3) as usize, buf },
             _ => Op::OtherBlocks { rs: rng.below(3) as usize, buf },
